@@ -28,7 +28,7 @@ def tasks(tier, seed):
     return ([('m',) + t for t in corpus.method_tasks(tier)] +
             [('h',) + tuple(t) for t in corpus.header_tasks(tier)] +
             [('v',) + tuple(t) for t in values.value_tasks(tier)] +
-            [('misc',)] +
+            [('misc',), ('subclasses',)] +
             [('reuse', m.name, src) for m in spec_table.METHODS if m.args
              for src in ('constructed', 'decoded')] +
             [('reuse', 'header', 'constructed'),
@@ -151,6 +151,115 @@ def check_value(ctx, position, v, legacy=False):
         return
     report(ctx, fp, 'value {} at {}'.format(short(v, 200), position), case,
            want, got)
+
+
+def subclass_values():
+    """(label, instance of a subclass, the plain value it stands for)."""
+    import collections
+    import enum
+
+    class Level(enum.IntEnum):
+        LOW = 5
+        MID = 40000
+        HIGH = 3000000000
+        NEG = -129
+
+    class Flag(enum.IntFlag):
+        A = 1
+        B = 128
+
+    class Text(str):
+        pass
+
+    class Name(str, enum.Enum):
+        X = 'x-value'
+
+    class Money(decimal.Decimal):
+        pass
+
+    class Stamp(datetime.datetime):
+        pass
+
+    class Blob(bytearray):
+        pass
+
+    class Num(float):
+        pass
+
+    class Items(list):
+        pass
+
+    class Table(dict):
+        pass
+
+    for m in Level:
+        yield 'IntEnum', m, int(m)
+    yield 'IntFlag', Flag.A | Flag.B, 129
+    yield 'int subclass', type('Mine', (int,), {})(70000), 70000
+    yield 'str subclass', Text('héllo'), 'héllo'
+    yield 'str subclass (empty)', Text(''), ''
+    yield 'str Enum', Name.X, 'x-value'
+    yield 'Decimal subclass', Money('-1.50'), decimal.Decimal('-1.50')
+    yield 'datetime subclass', Stamp(2020, 1, 2, 3, 4, 5), A.dt(1577934245)
+    yield 'bytearray subclass', Blob(b'\x00\xce'), bytearray(b'\x00\xce')
+    yield 'float subclass', Num(1.5), 1.5
+    yield 'list subclass', Items([1, Items(['a'])]), [1, ['a']]
+    yield 'dict subclass', Table(b=Table(c=1), a=2), {'b': {'c': 1}, 'a': 2}
+    yield 'OrderedDict', collections.OrderedDict([('z', 1), ('a', [2])]), \
+        {'z': 1, 'a': [2]}
+    yield 'defaultdict', collections.defaultdict(list, {'k': [1]}), \
+        {'k': [1]}
+    yield 'Counter', collections.Counter({'x': 3}), {'x': 3}
+
+
+def check_subclass_values(ctx):
+    """Instances of subclasses of the encodable types, in both ladders: the
+    encoder may refuse them, but what it accepts must be the bytes of the
+    plain value they stand for (an encoder chosen once per type, or by exact
+    type, shows here)."""
+    p = lib.pamqp()
+    for seq in ((False, True, False), (True, False, True)):
+      vals = list(subclass_values())    # the same classes across a sequence
+      for step, legacy in enumerate(seq):
+        p.encode.support_deprecated_rabbitmq(legacy)
+        try:
+            for label, inst, plain in vals:
+                for position, enc, arg, want in (
+                        ('top', p.encode.encode_table_value, inst,
+                         lambda: refcodec.enc_value(plain, legacy)),
+                        ('array', p.encode.field_array, [inst, [inst]],
+                         lambda: refcodec.enc_array([plain, [plain]],
+                                                    legacy)),
+                        ('table', p.encode.field_table, {'k': inst},
+                         lambda: refcodec.enc_table({'k': plain}, legacy))):
+                    ctx.case(('subclass', label, seq, step, position,
+                              repr(plain)[:60]), True, sample=lambda: {
+                                  'value': label + ' ' + short(plain, 40),
+                                  'position': position, 'legacy': legacy})
+                    try:
+                        got = enc(arg)
+                        ctx.calls()
+                    except Exception:  # noqa
+                        ctx.outcome('subclass-refused')
+                        continue
+                    ctx.valid()
+                    w = want()
+                    if got != w:
+                        ctx.outcome('mismatch')
+                        ctx.violation(
+                            'bytes|subclass|{}|{}|{}|{}'.format(
+                                label, legacy, position, short(plain, 60)),
+                            '{} standing for {} at {} (legacy={}) is '
+                            'accepted but encodes as {} where the plain '
+                            'value gives {}'.format(
+                                label, short(plain, 60), position, legacy,
+                                got.hex()[:80], w.hex()[:80]),
+                            {'kind': 'subclasses'}, w.hex()[:300],
+                            got.hex()[:300])
+                    else:
+                        ctx.outcome('ok')
+        finally:
+            p.encode.support_deprecated_rabbitmq(False)
 
 
 def check_misc(ctx):
@@ -462,6 +571,8 @@ def run(task, ctx):
                      sample=lambda: {'props': short(props, 160),
                                      'body_size': size, 'channel': ch})
             check_header(ctx, props, size, ch)
+    elif kind == 'subclasses':
+        check_subclass_values(ctx)
     elif kind == 'v':
         for v in values.values(task[1:], ctx.tier, ctx.seed):
             for position in values.POSITIONS:
@@ -489,5 +600,7 @@ def replay(case, ctx):
                          case['source'], upto=case['upto'])
     elif kind == 'reuse-header':
         run_reuse_header(ctx, case['source'], upto=case['upto'])
+    elif case['kind'] == 'subclasses':
+        check_subclass_values(ctx)
     else:
         check_misc(ctx)
